@@ -60,7 +60,32 @@ def writes_in(fn: ast.AST) -> List[Write]:
     return out
 
 
-def fresh_locals(prog: Program, f: Func) -> Set[str]:
+def _fresh_components(prog: Program, f: Func, call: ast.Call, arity: int, depth: int):
+    """For a call of a method of the same class (self.m(...)) or of a package function: which slots of the returned tuple hold
+    objects created in the callee's own activation (every return is a tuple display of that arity)?  None when unknown."""
+    callee = None
+    if isinstance(call.func, ast.Attribute) and astx.is_name(call.func.value, "self") and f.cls is not None:
+        callee = f.cls.lookup(call.func.attr)
+    else:
+        q = prog.resolve_expr(f.module, call.func)
+        callee = prog.functions.get(q) if q else None
+    if callee is None or callee is f or not isinstance(callee.node, (ast.FunctionDef, ast.AsyncFunctionDef)):
+        return None
+    rets = [r for r in astx.walk_own(callee.node) if isinstance(r, ast.Return)]
+    if not rets or not all(isinstance(r.value, ast.Tuple) and len(r.value.elts) == arity for r in rets):
+        return None
+    fr = fresh_locals(prog, callee, _depth=depth + 1)
+    out = []
+    for k in range(arity):
+        ok = True
+        for r in rets:
+            e = r.value.elts[k]
+            ok = ok and ((isinstance(e, ast.Name) and e.id in fr and e.id not in callee.params) or isinstance(e, (ast.Dict, ast.List, ast.Set, ast.DictComp, ast.ListComp, ast.SetComp)))
+        out.append(ok)
+    return out
+
+
+def fresh_locals(prog: Program, f: Func, _depth: int = 0) -> Set[str]:
     """Locals that only ever denote objects created in this activation: every binding is a
     constructor call of a package class, a literal container/comprehension, or is derived
     (iteration / subscript / attribute) from another fresh local."""
@@ -71,6 +96,11 @@ def fresh_locals(prog: Program, f: Func) -> Set[str]:
             for t in n.targets:
                 if isinstance(t, ast.Name):
                     cand.setdefault(t.id, []).append(n.value)
+                elif isinstance(t, ast.Tuple) and all(isinstance(e, ast.Name) for e in t.elts) and isinstance(n.value, ast.Call) and _depth < 1:
+                    # a, b = self.helper(...): component k is fresh when the helper returns, in slot k, an object it created itself
+                    comp = _fresh_components(prog, f, n.value, len(t.elts), _depth)
+                    for k, e in enumerate(t.elts):
+                        cand.setdefault(e.id, []).append(ast.Dict(keys=[], values=[]) if comp is not None and comp[k] else None)
                 else:
                     for nm in astx.assigned_names(t):
                         cand.setdefault(nm, []).append(None)
